@@ -29,6 +29,10 @@ MODES = ["any", "stream", "block", "nonempty"]
 GETTERS = [("streams", "stream_count", 0), ("blocks", "block_count", 0), ("size", "size", 0), ("total", "total_size", 1),
            ("ssize", "stream_size", 1), ("fsize", "file_size", 1), ("usize", "uncompressed_size", 1)]
 
+def lz_flags(lz, check):
+    sf = lz.StreamFlags(); sf.version = 0; sf.check = check; sf.backward_size = lz.VLI_UNKNOWN
+    return sf
+
 class Mismatch(Exception):
     def __init__(self, field, detail):
         Exception.__init__(self, detail); self.field = field; self.detail = detail
@@ -75,6 +79,15 @@ class Replayer:
             raise Mismatch("memused", "lzma_index_memused = %d, model %d" % (got, obs["mem"]))
         if obs.get("lite") or getters_only:
             return
+        if obs["small"]:
+            # lzma_index_checks() of a copy after lzma_index_stream_flags() changed the Check of its last Stream
+            for c, want in obs["probe"]:
+                d = L.lzma_index_dup(p, None)
+                sf = lz_flags(self.lz, c)
+                r = L.lzma_index_stream_flags(d, C.byref(sf)); got = L.lzma_index_checks(d)
+                L.lzma_index_end(d, None)
+                if r != 0 or got != want:
+                    raise Mismatch("checks_after_flags", "copy + stream_flags(check %d): lzma_index_checks = 0x%x, model 0x%x" % (c, got, want))
         st = obs["st"]; bl = {b["nfile"]: b for b in obs["bl"]}
         it = self.lz.IndexIter()
         for mode, name in enumerate(MODES):
@@ -138,6 +151,7 @@ class Replayer:
             except Mismatch as e:
                 raise Mismatch("memerr." + e.field, "after a failed allocation in %s: %s" % (what, e.detail))
         reg = {1: L.lzma_index_init(A)}
+        hp = [None]
         last = {}           # slot -> last predicted observation
         it = lz.IndexIter(); it_slot = 0
         keep = []
@@ -217,6 +231,25 @@ class Replayer:
                                 r = L.lzma_index_append(reg[k], A, 8, (o["n"] >> g) & 1)
                                 if r != 0:
                                     ret = lz.retname(r); break
+                    elif op == "hash_init":
+                        hp[0] = L.lzma_index_hash_init(hp[0], A)
+                        if not hp[0]:
+                            raise Mismatch("ret", "lzma_index_hash_init returned NULL")
+                        self.hash_size(hp[0], s)
+                    elif op == "hash_append":
+                        ret = lz.retname(L.lzma_index_hash_append(hp[0], big(o["u"]) & M64, big(o["v"]) & M64))
+                        if ret == s["ret"] and ret in ("OK", "PROG_ERROR"):
+                            self.hash_size(hp[0], s)
+                        if s["ret"] == "DATA_ERROR":
+                            L.lzma_index_hash_end(hp[0], A); hp[0] = None
+                    elif op == "hash_decode":
+                        size = L.lzma_index_size(reg[k]); buf = lz.Buf(size); pos = C.c_size_t(0)
+                        assert L.lzma_index_buffer_encode(reg[k], buf.addr, C.byref(pos), size) == 0
+                        ip = C.c_size_t(0)
+                        ret = lz.retname(L.lzma_index_hash_decode(hp[0], buf.addr, C.byref(ip), size))
+                        if ret == "STREAM_END" and ip.value != size:
+                            raise Mismatch("hash_decode", "consumed %d of %d bytes" % (ip.value, size))
+                        L.lzma_index_hash_end(hp[0], A); hp[0] = None
                     elif op == "encn":
                         for _ in range(o["n"]):
                             assert L.lzma_index_append(reg[k], A, big(o["u"]), big(o["v"])) == 0
@@ -315,6 +348,8 @@ class Replayer:
         finally:
             for p in reg.values():
                 L.lzma_index_end(p, A)
+            if hp[0]:
+                L.lzma_index_hash_end(hp[0], A)
         if alloc and (alloc.live or alloc.errors):
             return dict(step=len(plan) - 1, key="replay:allocator", detail="after freeing every index: %d allocations live, errors %s" % (len(alloc.live), alloc.errors[:3]))
         return None
@@ -324,6 +359,11 @@ class Replayer:
         sf.version = f["version"]; sf.check = f["check"]
         sf.backward_size = big(f["bs"]) if f["bsk"] else self.lz.VLI_UNKNOWN
         return sf
+
+    def hash_size(self, h, s):
+        got = self.L.lzma_index_hash_size(h)
+        if got != s["info"]["cnt"]:
+            raise Mismatch("hash_size", "lzma_index_hash_size = %d, model %d" % (got, s["info"]["cnt"]))
 
     def chunked_decodes(self, data, obs, alloc):
         """The Index decoder as a stream (lzma_index_decoder + lzma_code): whatever the input chunks are, the
